@@ -42,5 +42,8 @@ def check(ctx, rep):
     if not found:
         from ..model import AnalysisError
         raise AnalysisError('anchor vanished: 292 test in PEP8Normalizer._visit_node')
+    # no state outlives a call: no shared write reachable from the entry points of this property
+    from ..rules import eff as _eff
+    _eff.eff_1(ctx, rep, only=[('parso/grammar.py', 'Grammar._get_normalizer_issues')], minimum=20)
     rep.note('Not decided: positions inside the file, non-negative columns, equality of issue lists across fresh / '
              'incremental / cached trees.')
